@@ -204,6 +204,58 @@ def tie_oracles(ctx):
 # model-independent search: column slicer of the input vs column slicer of the output
 
 
+LETTERS = "ABCDEFGHIJKLMNOPQRSTUVWXYZabcdefghijklmnopqrstuvwxyz0123456789"
+
+
+def slicer(text):
+    """Independent column read of a PDB text (own copy: the slicer of the C07 check is free to
+    change).  First model (lines in front of the second MODEL record), ATOM/HETATM by fixed
+    columns, one per (chain, resSeq, iCode, name), first listed; a blank chain of a non-water
+    record in a file with TER records is the chain of its TER-delimited segment.
+    Returns (kept, first, later) lists of dicts, or None when a coordinate line cannot be read by
+    columns (outside the oracle's domain)."""
+    kept, seen, first, later = [], {}, [], []
+    nmodel = 0
+    lines = [l.rstrip("\r") for l in text.split("\n")]
+    nter = sum(1 for l in lines if l[0:6].strip() == "TER")
+    seg = 0
+    for n, l in enumerate(lines):
+        rec = l[0:6].strip()
+        if l[:1].isspace() and l.strip()[0:6].strip() in ("ATOM", "HETATM", "MODEL"):
+            return None
+        if rec == "TER":
+            seg += 1
+            continue
+        if rec == "MODEL":
+            nmodel += 1
+            continue
+        if rec not in ("ATOM", "HETATM"):
+            continue
+        try:
+            d = {
+                "line": n, "rec": rec, "serial": int(l[6:11]), "name": l[12:16].strip(), "alt": l[16:17].strip(),
+                "resn": l[17:20].strip(), "chain": l[21:22].strip(), "seq": int(l[22:26]), "ic": l[26:27].strip(),
+                "x": float(l[30:38]), "y": float(l[38:46]), "z": float(l[46:54]),
+            }
+        except ValueError:
+            return None
+        if len(l.rstrip()) < 54:
+            return None
+        lettered = nter > 0 and d["chain"] == "" and d["resn"] not in ("HOH", "WAT")
+        d["segchain"] = ("", seg) if lettered else d["chain"]
+        d["codechain"] = d["chain"]
+        if nmodel >= 2:
+            later.append(d)
+            continue
+        first.append(d)
+        key = (d["segchain"], d["seq"], d["ic"], d["name"])
+        if key in seen:
+            continue
+        seen[key] = d
+        kept.append(d)
+    return kept, first, later
+
+
 def slice_out(data, ws):
     """Atom records of the written file by the writer's fixed columns (default
     layout) or by whitespace tokens from the right (--whitespace), plus the
@@ -245,13 +297,13 @@ def search_case(ctx, case, tab, pt, real=None):
     design (see notes/E2E_Clean.md) are classified and counted, everything else
     is a failure."""
     text, dropw, keep, ws = case["text"], case["dropw"], case["keep"], case["ws"]
-    sl = c07.slicer(text)
+    sl = slicer(text)
     if sl is None:
         ctx.count("search:outside-column-oracle")
         return
     kept, first, later = sl
     # blank chains of TER-delimited segments are lettered with identifiers no record of the file uses
-    free = [c for c in c07.LETTERS if c not in {d["chain"] for d in first + later}]
+    free = [c for c in LETTERS if c not in {d["chain"] for d in first + later}]
     for d in first + later:
         if isinstance(d["segchain"], tuple):
             seg = d["segchain"][1]
@@ -261,7 +313,7 @@ def search_case(ctx, case, tab, pt, real=None):
     # the LAST record of the run (create_residue(residue, previous_atom.res_name)); a record's own resName
     # columns may differ (e.g. a 4-character residue name).  run_resn = that name; key_resns = every resName
     # listed under the record's residue key (covers records skipped because already placed).
-    raw = c07.raw_lines(text)
+    raw = [l.rstrip("\r") for l in text.split("\n")]
     end_lines = [n for n, l in enumerate(raw) if l.strip()[0:6].strip() == "END"]
     runs, prev = [], None
     for d in first:
@@ -420,7 +472,7 @@ def load_corpus():
     out = []
     if CORPUS.is_dir():
         for p in sorted(CORPUS.glob("*.json")):
-            if p.name.startswith("assign_"):
+            if p.name.startswith(("assign_", "cif_")):
                 continue  # cases of harness/props/e2e_assign.py
             c = json.loads(p.read_text())
             c.setdefault("feats", ["corpus:" + p.stem])
